@@ -91,7 +91,8 @@ def handleNew (o : Op) (signer : Bool) : String :=
   match goKey? o with
   | none => "bad-op"
   | some gk =>
-    match (if signer then newSignerFromKey gk else newPublicKey gk) with
+    -- an opaque crypto.Signer (HSM-style wrapper) goes through NewSignerFromSigner → NewPublicKey for every key type
+    match (if signer ∧ o.nat? "opaque" ≠ some 1 then newSignerFromKey gk else newPublicKey gk) with
     | none => "err"
     | some k =>
       if signer then
